@@ -75,6 +75,7 @@ type State struct {
 	assumed  []string // names of trusted externals used on this path
 	dead     bool
 	written  map[cellKey]bool
+	havocked map[cellKey]bool // cells (or whole objects, path "") whose initial value must not be re-materialised
 }
 
 func (s *State) clone() *State {
@@ -87,6 +88,12 @@ func (s *State) clone() *State {
 	}
 	n.pc = append([]Term(nil), s.pc...)
 	n.assumed = append([]string(nil), s.assumed...)
+	if s.havocked != nil {
+		n.havocked = make(map[cellKey]bool, len(s.havocked))
+		for k := range s.havocked {
+			n.havocked[k] = true
+		}
+	}
 	if s.written != nil {
 		n.written = make(map[cellKey]bool, len(s.written))
 		for k := range s.written {
@@ -252,4 +259,32 @@ func sortedKeys(m map[string]bool) []string {
 	}
 	sort.Strings(ks)
 	return ks
+}
+
+func (s *State) markHavocked(obj *Obj, path string) {
+	if s.havocked == nil {
+		s.havocked = map[cellKey]bool{}
+	}
+	s.havocked[cellKey{obj, path}] = true
+}
+
+// isHavocked: the cell, an enclosing path, or the whole object was havocked in this state.
+func (s *State) isHavocked(obj *Obj, path string) bool {
+	if s.havocked == nil {
+		return false
+	}
+	if s.havocked[cellKey{obj, ""}] {
+		return true
+	}
+	for p := path; p != ""; {
+		if s.havocked[cellKey{obj, p}] {
+			return true
+		}
+		i := strings.LastIndex(p, ".")
+		if i < 0 {
+			break
+		}
+		p = p[:i]
+	}
+	return false
 }
